@@ -29,8 +29,14 @@ Inductive tr_step (s : state) : sres -> Prop :=
 Ltac ts_same := apply TS_same; reflexivity.
 Ltac ts_fin := apply TS_fin; intros ? ?; discriminate.
 
+Lemma end_panic_out_tr s0 outer : forall c r, tr_step s0 (end_panic_out outer c (str s0) r).
+Proof.
+  induction outer as [|sv rest IH]; intros c r; simpl; [ts_fin|].
+  destruct (vcalls sv); [apply IH|ts_same].
+Qed.
+
 Lemma end_panic_tr s0 s c : str s = str s0 -> tr_step s0 (end_panic s c).
-Proof. intros Hs. unfold end_panic. destruct (souter s); rewrite Hs; ts_fin. Qed.
+Proof. intros Hs. unfold end_panic. rewrite Hs. apply end_panic_out_tr. Qed.
 
 Lemma finish_tr' s0 s : str s = str s0 -> tr_step s0 (finish s).
 Proof.
@@ -41,6 +47,13 @@ Qed.
 Lemma finish_tr s : tr_step s (finish s).
 Proof. apply finish_tr'. reflexivity. Qed.
 
+Lemma raise_with_tr s0 s owner line v : str s = str s0 -> tr_step s0 (raise_with s owner line v).
+Proof.
+  intros Hs. unfold raise_with. destruct (scalls s).
+  - rewrite Hs. apply end_panic_out_tr.
+  - apply TS_same. simpl. exact Hs.
+Qed.
+
 Lemma native_in_next_tr s0 nk s k :
   str s = str s0 ->
   (forall s', (str s' = str s0 \/ exists e, str s' = e :: str s0 /\ benign e) -> tr_step s0 (k s')) ->
@@ -50,7 +63,7 @@ Proof.
   - apply Hk. right. exists (EBody n). simpl. rewrite Hs. split; [reflexivity|exact I].
   - rewrite Hs. apply TS_stop.
   - rewrite Hs. apply TS_fatal.
-  - destruct (sfn s); rewrite Hs; ts_fin.
+  - apply raise_with_tr. exact Hs.
 Qed.
 
 Lemma after_switch_tr s0 s call i :
@@ -62,6 +75,7 @@ Proof.
     intros s' [H|[e [H Hb]]].
     + apply TS_same. simpl. exact H.
     + eapply TS_emit; [|exact Hb]. simpl. exact H.
+  - rewrite Hs. ts_fin.
 Qed.
 
 Lemma step_next_tr s i : tr_step s (step_next s i).
@@ -71,23 +85,23 @@ Proof.
   destruct (fstat call).
   - apply after_switch_tr. reflexivity.
   - ts_same.
-  - destruct (prev_deferred (scalls s) i) as [[j prev]|].
+  - cbv zeta. change (status_eqb Returned Recovered) with false. cbv iota.
+    destruct (prev_deferred (scalls s) i) as [[j prev]|].
     + apply after_switch_tr. reflexivity.
     + simpl. ts_same.
   - destruct (sfn s); [|ts_fin]. apply after_switch_tr. reflexivity.
-  - destruct (find_deferred_below (scalls s) i) as [[j d]|]; [|ts_same].
-    destruct (nth_error (scalls s) (S j)); [|ts_fin]. apply after_switch_tr. reflexivity.
-  - destruct (prev_deferred (scalls s) i) as [[j prev]|].
+  - destruct (scan_panicked (scalls s) i _ _) as [[[[j d]|] chain']|]; [| |ts_fin].
+    + destruct (nth_error (scalls s) (S j)); [|ts_fin]. apply after_switch_tr. reflexivity.
+    + ts_same.
+  - cbv zeta. change (status_eqb Recovered Recovered) with true. cbv iota.
+    unfold trim. destruct (schain s) as [|p0 r0]; [ts_fin|].
+    match goal with |- context [prev_deferred ?c i] => destruct (prev_deferred c i) as [[j prev]|] end.
     + apply after_switch_tr. reflexivity.
     + simpl. ts_same.
 Qed.
 
 Lemma raise_tr s0 s f pc v : str s = str s0 -> tr_step s0 (raise s f pc v).
-Proof.
-  intros Hs. unfold raise. destruct (scalls s).
-  - apply end_panic_tr. exact Hs.
-  - apply TS_same. simpl. exact Hs.
-Qed.
+Proof. intros Hs. unfold raise. apply raise_with_tr. exact Hs. Qed.
 
 Lemma do_recover_tr s0 s down : str s = str s0 -> tr_step s0 (do_recover s down).
 Proof.
@@ -238,12 +252,23 @@ Proof.
   split; intros x ->; eexists; split; reflexivity.
 Qed.
 
-(* the end of the VM of a callback with a pending panic: Run panics with the text of the chain *)
-Lemma callback_panic_is_fatal s p c :
-  souter s <> [] -> schain s = p :: c ->
-  finish s = Fin (OCbPanic (cb_view (p :: c))) (str s).
+(* the end of the VM of a callback with a pending panic: the calling VM, when
+   it has call frames, panics at its call instruction with the panics of the
+   callback before its own; without call frames it ends in the same way *)
+Lemma callback_panic_propagates s p c sv rest fr frs :
+  souter s = sv :: rest -> schain s = p :: c -> vcalls sv = fr :: frs ->
+  finish s = Next (mkstate (MNext (length (vcalls sv ++ [mkframe (CFn (vfn sv)) 0 Panicked]))) None (vpc sv)
+                           (vcalls sv ++ [mkframe (CFn (vfn sv)) 0 Panicked])
+                           ((p :: c) ++ vchain sv) (str s) (sraised s) rest).
 Proof.
-  intros Ho Hc. unfold finish, end_panic. rewrite Hc. destruct (souter s); [contradiction|reflexivity].
+  intros Ho Hc Hv. unfold finish, end_panic. rewrite Hc, Ho. simpl. rewrite Hv. reflexivity.
+Qed.
+
+Lemma callback_panic_propagates_through s p c sv rest :
+  souter s = sv :: rest -> schain s = p :: c -> vcalls sv = [] ->
+  finish s = end_panic_out rest ((p :: c) ++ vchain sv) (str s) (sraised s).
+Proof.
+  intros Ho Hc Hv. unfold finish, end_panic. rewrite Hc, Ho. simpl. rewrite Hv. reflexivity.
 Qed.
 
 (* the end of the VM of a callback without a panic: the caller goes on after its native call *)
@@ -283,51 +308,142 @@ Proof.
   intros H Hb. induction H; constructor; [|assumption]. eapply desc_weaken; eassumption.
 Qed.
 
-(* the chain of the running VM and the chains of the VMs suspended in a
-   callback: serial numbers decrease along every chain and are below the counter *)
-Definition chain_ok (s : state) : Prop :=
-  desc (map pser (schain s)) (sraised s) /\
-  Forall (fun sv => desc (map pser (vchain sv)) (sraised s)) (souter s).
+(* every PanicError the machine holds: the chain of the running VM and the
+   chains of the VMs suspended in a callback (the panics of a callback are
+   newer than those of its callers) *)
+Definition all_chains (s : state) : list prec := schain s ++ flat_map vchain (souter s).
 
-(* how one step changes the chain *)
+(* serial numbers decrease along the whole list and are below the counter *)
+Definition chain_ok (s : state) : Prop := desc (map pser (all_chains s)) (sraised s).
+
+(* a record without its aborted flag *)
+Definition pkey (p : prec) : N * bool * option N * N := (pmsg p, precovered p, ppos p, pser p).
+
+Lemma pkey_ser l l' : map pkey l = map pkey l' -> map pser l = map pser l'.
+Proof.
+  intros H. assert (E : forall x, map pser x = map (fun k => snd k) (map pkey x)).
+  { intros x. rewrite map_map. reflexivity. }
+  rewrite (E l), (E l'), H. reflexivity.
+Qed.
+
+Lemma drop_ab_skipn c : exists n, drop_ab c = skipn n c.
+Proof.
+  induction c as [|p r [n IH]]; [exists 0%nat; reflexivity|]. simpl.
+  destruct (paborted p); [exists (S n); exact IH|exists 0%nat; reflexivity].
+Qed.
+
+Lemma mark_next_key post : forall done rest, mark_next post = Some (done, rest) ->
+  map pkey (done ++ rest) = map pkey post.
+Proof.
+  induction post as [|q r IH]; intros done rest H; simpl in H; [discriminate|].
+  destruct (paborted q).
+  - destruct (mark_next r) as [[d' r']|]; [|discriminate]. inversion H; subst.
+    simpl. f_equal. apply IH. reflexivity.
+  - inversion H; subst. reflexivity.
+Qed.
+
+Lemma scan_panicked_key c : forall i pre post r ch,
+  scan_panicked c i pre post = Some (r, ch) -> map pkey ch = map pkey (pre ++ post).
+Proof.
+  induction i as [|j IH]; intros pre post r ch H; simpl in H.
+  - inversion H; subst. reflexivity.
+  - destruct (nth_error c j) as [fr|]; [|discriminate].
+    assert (Hm : match mark_next post with
+                 | Some (done, rest) => scan_panicked c j (pre ++ done) rest
+                 | None => None
+                 end = Some (r, ch) -> map pkey ch = map pkey (pre ++ post)).
+    { destruct (mark_next post) as [[done rest]|] eqn:Hmk; [|discriminate]. intros H1.
+      rewrite (IH _ _ _ _ H1), <- app_assoc, !map_app. f_equal.
+      rewrite <- map_app. apply mark_next_key. exact Hmk. }
+    destruct (fstat fr); try (apply (IH _ _ _ _ H)); try (apply Hm; exact H).
+    inversion H; subst. reflexivity.
+Qed.
+
+Lemma chain_split_app c : fst (chain_split c) ++ snd (chain_split c) = c.
+Proof. destruct c; reflexivity. Qed.
+
+(* c1 is c without some of its first records, up to the aborted flags *)
+Definition derived (c c1 : list prec) : Prop := exists n, map pkey c1 = map pkey (skipn n c).
+
+Lemma derived_refl c : derived c c.
+Proof. exists 0%nat. reflexivity. Qed.
+
+Lemma derived_key c c1 : map pkey c1 = map pkey c -> derived c c1.
+Proof. intros H. exists 0%nat. exact H. Qed.
+
+Lemma derived_trim p0 r0 : derived (p0 :: r0) (drop_ab r0).
+Proof. destruct (drop_ab_skipn r0) as [n Hn]. exists (S n). simpl. rewrite Hn. reflexivity. Qed.
+
+(* at most one new record, with the next serial number *)
+Definition pushed (s : state) (newp : list prec) (r' : N) : Prop :=
+  (newp = [] /\ r' = sraised s) \/
+  (exists p, newp = [p] /\ pser p = sraised s /\ precovered p = false /\ r' = N.succ (sraised s)).
+
+(* how one step changes the chains *)
 Inductive ch_step (s : state) : sres -> Prop :=
-| CS_same s' : schain s' = schain s -> sraised s' = sraised s -> souter s' = souter s -> ch_step s (Next s')
-| CS_push s' p :
-    schain s' = p :: schain s -> pser p = sraised s -> precovered p = false ->
-    sraised s' = N.succ (sraised s) -> souter s' = souter s -> ch_step s (Next s')
+| CS_gen s' newp c1 popped :
+    (* records leave the head of the chain or change their aborted flag, at
+       most one is added; the chains of the suspended VMs that end are appended *)
+    souter s = popped ++ souter s' ->
+    schain s' = newp ++ c1 ++ flat_map vchain popped ->
+    derived (schain s) c1 -> pushed s newp (sraised s') -> ch_step s (Next s')
 | CS_flag s' p ps f down i1 i :
-    schain s = p :: ps -> schain s' = mkprec (pmsg p) true (ppos p) (pser p) :: ps ->
+    schain s = p :: ps -> schain s' = mkprec (pmsg p) true (paborted p) (ppos p) (pser p) :: ps ->
     sraised s' = sraised s -> souter s' = souter s ->
     smode s = MExec -> sfn s = Some f -> fetch f (spc s) = Some (IRecover down) ->
     recover_start (scalls s) down = Some i1 -> recover_search (scalls s) i1 = Some i ->
     scalls s' = mark_recovered (scalls s) i ->
     ch_step s (Next s')
-| CS_trim s' n : schain s' = skipn n (schain s) -> sraised s' = sraised s -> souter s' = souter s -> ch_step s (Next s')
 | CS_enter s' sv :
     (* a native function calls back: a new VM with an empty chain, the chain of the caller is kept *)
     schain s' = [] -> sraised s' = sraised s -> vchain sv = schain s -> souter s' = sv :: souter s ->
     ch_step s (Next s')
-| CS_resume s' sv rest :
-    (* the callback returned: the caller goes on with its own chain *)
-    souter s = sv :: rest -> schain s = [] -> schain s' = vchain sv -> sraised s' = sraised s -> souter s' = rest ->
-    ch_step s (Next s')
 | CS_fin o tr :
     (forall c, o = OPanic c ->
-       c = chain_view (schain s) \/
-       exists p, pser p = sraised s /\ precovered p = false /\ c = chain_view (p :: schain s)) ->
+       exists newp c1 r', c = chain_view (newp ++ c1 ++ flat_map vchain (souter s)) /\
+                          derived (schain s) c1 /\ pushed s newp r') ->
     ch_step s (Fin o tr).
 
-Ltac cs_same := apply CS_same; reflexivity.
+Lemma cs_same_gen s s' :
+  schain s' = schain s -> sraised s' = sraised s -> souter s' = souter s -> ch_step s (Next s').
+Proof.
+  intros Hc Hr Ho. apply CS_gen with (newp := []) (c1 := schain s) (popped := []).
+  - rewrite Ho. reflexivity.
+  - rewrite Hc. simpl. rewrite app_nil_r. reflexivity.
+  - apply derived_refl.
+  - left. auto.
+Qed.
+
+Ltac cs_same := apply cs_same_gen; reflexivity.
 Ltac cs_fin := apply CS_fin; intros ? ?; discriminate.
 
-Lemma end_panic_ch s0 s c :
-  (c = schain s0 \/ exists p, pser p = sraised s0 /\ precovered p = false /\ c = p :: schain s0) ->
-  ch_step s0 (end_panic s c).
+(* the end of runFunc with a pending chain: in the main VM Run returns it, in
+   the VM of a callback the calling VMs take it over *)
+Lemma end_panic_out_ch s0 newp c1 r' tr :
+  derived (schain s0) c1 -> pushed s0 newp r' ->
+  forall outer popped, souter s0 = popped ++ outer ->
+  ch_step s0 (end_panic_out outer (newp ++ c1 ++ flat_map vchain popped) tr r').
 Proof.
-  intros Hc. unfold end_panic. destruct (souter s); [|cs_fin].
-  apply CS_fin. intros c' Ho. inversion Ho. destruct Hc as [->|[p [H1 [H2 ->]]]].
-  - left. reflexivity.
-  - right. exists p. auto.
+  intros Hd Hp. induction outer as [|sv rest IH]; intros popped Ho; simpl.
+  - apply CS_fin. intros c' Hc. inversion Hc. exists newp, c1, r'.
+    rewrite Ho, app_nil_r. auto.
+  - assert (Hch : (newp ++ c1 ++ flat_map vchain popped) ++ vchain sv
+                  = newp ++ c1 ++ flat_map vchain (popped ++ [sv])).
+    { rewrite flat_map_app. simpl. rewrite app_nil_r. repeat rewrite <- app_assoc. reflexivity. }
+    destruct (vcalls sv).
+    + rewrite Hch. apply IH. rewrite Ho, <- app_assoc. reflexivity.
+    + eapply CS_gen with (popped := popped ++ [sv]); [| |exact Hd|exact Hp].
+      * simpl. rewrite Ho, <- app_assoc. reflexivity.
+      * simpl. exact Hch.
+Qed.
+
+Lemma end_panic_ch s0 s newp c1 :
+  souter s = souter s0 -> sraised s = sraised s0 -> derived (schain s0) c1 -> pushed s0 newp (sraised s0) ->
+  ch_step s0 (end_panic s (newp ++ c1)).
+Proof.
+  intros Ho Hr Hd Hp. unfold end_panic. rewrite Ho, Hr.
+  replace (newp ++ c1) with (newp ++ c1 ++ flat_map vchain []) by (simpl; rewrite app_nil_r; reflexivity).
+  apply end_panic_out_ch; [exact Hd|exact Hp|reflexivity].
 Qed.
 
 Lemma finish_ch' s0 s :
@@ -335,21 +451,58 @@ Lemma finish_ch' s0 s :
 Proof.
   intros Hc Hr Ho. unfold finish. destruct (schain s) as [|p c] eqn:Hcs.
   - destruct (souter s) as [|sv rest] eqn:Hos; [cs_fin|].
-    eapply CS_resume with (sv := sv) (rest := rest); simpl; try reflexivity; congruence.
-  - apply end_panic_ch. left. congruence.
+    apply CS_gen with (newp := []) (c1 := []) (popped := [sv]).
+    + rewrite <- Ho. reflexivity.
+    + simpl. rewrite app_nil_r. reflexivity.
+    + exists 0%nat. rewrite <- Hc. reflexivity.
+    + left. auto.
+  - change (p :: c) with ([] ++ (p :: c)). apply end_panic_ch.
+    + exact Ho.
+    + exact Hr.
+    + rewrite <- Hc. apply derived_refl.
+    + left. auto.
 Qed.
 
 Lemma finish_ch s : ch_step s (finish s).
 Proof. apply finish_ch'; reflexivity. Qed.
 
-Lemma after_switch_ch s0 s call i :
-  schain s = schain s0 -> sraised s = sraised s0 -> souter s = souter s0 -> ch_step s0 (after_switch s call i).
+Lemma raise_with_ch s0 s owner line v :
+  derived (schain s0) (schain s) -> sraised s = sraised s0 -> souter s = souter s0 ->
+  ch_step s0 (raise_with s owner line v).
 Proof.
-  intros Hc Hr Ho. unfold after_switch. destruct (fcl call) as [f|nk].
-  - apply CS_same; simpl; assumption.
-  - destruct nk; simpl; try cs_fin.
-    + apply CS_same; simpl; assumption.
-    + destruct (sfn s); cs_fin.
+  intros Hd Hr Ho. unfold raise_with.
+  assert (Hp : pushed s0 [mkprec v false false line (sraised s)] (N.succ (sraised s0))).
+  { right. eexists. split; [reflexivity|]. simpl. rewrite Hr. auto. }
+  destruct (scalls s).
+  - rewrite Ho, Hr.
+    replace (mkprec v false false line (sraised s0) :: schain s)
+      with ([mkprec v false false line (sraised s0)] ++ schain s ++ flat_map vchain [])
+      by (simpl; rewrite app_nil_r; reflexivity).
+    apply end_panic_out_ch; [exact Hd| |reflexivity].
+    right. eexists. split; [reflexivity|]. simpl. auto.
+  - eapply CS_gen with (popped := []) (newp := [mkprec v false false line (sraised s)]) (c1 := schain s);
+      [rewrite <- Ho; reflexivity| |exact Hd|].
+    + simpl. rewrite app_nil_r. reflexivity.
+    + cbn [sraised]. replace (N.succ (sraised s)) with (N.succ (sraised s0)) by (rewrite Hr; reflexivity). exact Hp.
+Qed.
+
+(* the part of nextCall after its switch, when the chain has been trimmed or marked before *)
+Lemma after_switch_ch s0 s call i :
+  derived (schain s0) (schain s) -> sraised s = sraised s0 -> souter s = souter s0 ->
+  ch_step s0 (after_switch s call i).
+Proof.
+  intros Hd Hr Ho.
+  assert (Hn : forall s', schain s' = schain s -> sraised s' = sraised s -> souter s' = souter s ->
+                          ch_step s0 (Next s')).
+  { intros s' Hc' Hr' Ho'. apply CS_gen with (newp := []) (c1 := schain s) (popped := []).
+    - rewrite Ho', Ho. reflexivity.
+    - rewrite Hc'. simpl. rewrite app_nil_r. reflexivity.
+    - exact Hd.
+    - left. split; [reflexivity|congruence]. }
+  unfold after_switch. destruct (fcl call) as [f|nk|]; [apply Hn; reflexivity| |cs_fin].
+  destruct nk; simpl; try cs_fin.
+  - apply Hn; reflexivity.
+  - apply raise_with_ch; assumption.
 Qed.
 
 Lemma step_next_ch s i : ch_step s (step_next s i).
@@ -357,27 +510,32 @@ Proof.
   unfold step_next.
   destruct (nth_error (scalls s) i) as [call|]; [|cs_fin].
   destruct (fstat call) eqn:Hst.
-  - apply after_switch_ch; reflexivity.
+  - apply after_switch_ch; [apply derived_refl|reflexivity|reflexivity].
   - cs_same.
-  - destruct (prev_deferred (scalls s) i) as [[j prev]|].
-    + apply after_switch_ch; reflexivity.
+  - cbv zeta. change (status_eqb Returned Recovered) with false. cbv iota.
+    destruct (prev_deferred (scalls s) i) as [[j prev]|].
+    + apply after_switch_ch; [apply derived_refl|reflexivity|reflexivity].
     + simpl. cs_same.
-  - destruct (sfn s); [|cs_fin]. apply after_switch_ch; reflexivity.
-  - destruct (find_deferred_below (scalls s) i) as [[j d]|]; [|cs_same].
-    destruct (nth_error (scalls s) (S j)); [|cs_fin]. apply after_switch_ch; reflexivity.
-  - destruct (prev_deferred (scalls s) i) as [[j prev]|].
-    + apply after_switch_ch; reflexivity.
-    + simpl. eapply CS_trim; reflexivity.
+  - destruct (sfn s); [|cs_fin]. apply after_switch_ch; [apply derived_refl|reflexivity|reflexivity].
+  - destruct (scan_panicked (scalls s) i _ _) as [[[[j d]|] chain']|] eqn:Hsc; [| |cs_fin].
+    + apply scan_panicked_key in Hsc. rewrite chain_split_app in Hsc.
+      destruct (nth_error (scalls s) (S j)); [|cs_fin].
+      apply after_switch_ch; [apply derived_key; exact Hsc|reflexivity|reflexivity].
+    + apply scan_panicked_key in Hsc. rewrite chain_split_app in Hsc.
+      apply CS_gen with (newp := []) (c1 := chain') (popped := []); [reflexivity| |apply derived_key; exact Hsc|left; auto].
+      simpl. rewrite app_nil_r. reflexivity.
+  - cbv zeta. change (status_eqb Recovered Recovered) with true. cbv iota.
+    unfold trim. destruct (schain s) as [|p0 r0] eqn:Hch; [cs_fin|].
+    match goal with |- context [prev_deferred ?c i] => destruct (prev_deferred c i) as [[j prev]|] end.
+    + apply after_switch_ch; [simpl; rewrite Hch; apply derived_trim|reflexivity|reflexivity].
+    + apply CS_gen with (newp := []) (c1 := drop_ab r0) (popped := []); [reflexivity| |rewrite Hch; apply derived_trim|left; auto].
+      simpl. rewrite app_nil_r. reflexivity.
 Qed.
 
 Lemma raise_ch s0 s f pc v :
   schain s = schain s0 -> sraised s = sraised s0 -> souter s = souter s0 -> ch_step s0 (raise s f pc v).
 Proof.
-  intros Hc Hr Ho. unfold raise. destruct (scalls s).
-  - apply end_panic_ch. right.
-    eexists (mkprec v false _ (sraised s)). simpl. split; [exact Hr|]. split; [reflexivity|].
-    rewrite Hc. reflexivity.
-  - eapply CS_push; simpl; [rewrite Hc; reflexivity|exact Hr|reflexivity|rewrite Hr; reflexivity|exact Ho].
+  intros Hc Hr Ho. unfold raise. apply raise_with_ch; [rewrite Hc; apply derived_refl|exact Hr|exact Ho].
 Qed.
 
 Lemma step_exec_ch s : smode s = MExec -> ch_step s (step_exec s).
@@ -417,18 +575,35 @@ Proof.
   - apply step_next_ch.
 Qed.
 
+Lemma desc_app_skipn n : forall l rest b, desc (l ++ rest) b -> desc (skipn n l ++ rest) b.
+Proof.
+  induction n; intros l rest b H; [exact H|]. destruct l as [|x r]; [exact H|]. simpl in *.
+  destruct H as [Hx Hr]. apply IHn. eapply desc_weaken; [exact Hr|lia].
+Qed.
+
+(* the chains after a step of the general kind are ordered *)
+Lemma gen_desc s newp c1 r' :
+  chain_ok s -> derived (schain s) c1 -> pushed s newp r' ->
+  desc (map pser (newp ++ c1 ++ flat_map vchain (souter s))) r'.
+Proof.
+  unfold chain_ok, all_chains. intros Hok [n Hd] Hp.
+  assert (H1 : desc (map pser (c1 ++ flat_map vchain (souter s))) (sraised s)).
+  { rewrite map_app, (pkey_ser _ _ Hd), <- map_app. rewrite map_app, map_skipn'.
+    apply desc_app_skipn. rewrite <- map_app. exact Hok. }
+  destruct Hp as [[-> ->]|[p [-> [Hs [_ ->]]]]]; [exact H1|].
+  simpl. rewrite Hs. split; [lia|exact H1].
+Qed.
+
 Lemma step_chain_ok s s' : step s = Next s' -> chain_ok s -> chain_ok s'.
 Proof.
-  intros Hs [Hok Hout]. assert (H := step_ch s). rewrite Hs in H. unfold chain_ok in *.
-  inversion H as [s1 Hc Hr Ho | s1 p Hc Hp Hrec Hr Ho | s1 p ps f down i1 i Hc0 Hc Hr Ho Hm Hf Hfe Hs1 Hs2 Hcalls
-                 | s1 n Hc Hr Ho | s1 sv Hc Hr Hv Ho | s1 sv rest Ho0 Hc0 Hc Hr Ho | o tr Hfin].
-  - rewrite Hc, Hr, Ho. split; assumption.
-  - rewrite Hc, Hr, Ho. simpl. rewrite Hp. split; [split; [lia|exact Hok]|].
-    eapply Forall_desc_weaken; [exact Hout|lia].
-  - rewrite Hc, Hr, Ho. rewrite Hc0 in Hok. split; assumption.
-  - rewrite Hc, Hr, Ho. split; [|assumption]. rewrite map_skipn'. apply desc_skipn. exact Hok.
-  - rewrite Hc, Hr, Ho. split; [exact I|]. constructor; [rewrite Hv; exact Hok|exact Hout].
-  - rewrite Hc, Hr, Ho. rewrite Ho0 in Hout. inversion Hout as [|x l Hx Hl]. split; assumption.
+  intros Hs Hok. assert (H := step_ch s). rewrite Hs in H.
+  inversion H as [s1 newp c1 popped Ho Hc Hd Hp | s1 p ps f down i1 i Hc0 Hc Hr Ho Hm Hf Hfe Hs1 Hs2 Hcalls
+                 | s1 sv Hc Hr Hv Ho | o tr Hfin]; subst.
+  - assert (G := gen_desc s newp c1 (sraised s') Hok Hd Hp).
+    unfold chain_ok, all_chains. rewrite Hc. rewrite Ho, flat_map_app in G.
+    repeat rewrite <- app_assoc. exact G.
+  - unfold chain_ok, all_chains in *. rewrite Hc, Hr, Ho. rewrite Hc0 in Hok. exact Hok.
+  - unfold chain_ok, all_chains in *. rewrite Hc, Hr, Ho. simpl. rewrite Hv. exact Hok.
 Qed.
 
 Inductive reach : state -> state -> Prop :=
@@ -439,7 +614,7 @@ Lemma reach_chain_ok s s' : reach s s' -> chain_ok s -> chain_ok s'.
 Proof. induction 1; intros Hok; [exact Hok|]. apply IHreach. eapply step_chain_ok; eassumption. Qed.
 
 Lemma init_chain_ok f : chain_ok (init f).
-Proof. split; [exact I|constructor]. Qed.
+Proof. exact I. Qed.
 
 (* the chain Run returns is the view of a chain whose serial numbers of
    raising strictly decrease along the next links *)
@@ -452,11 +627,8 @@ Proof.
   destruct (step s) as [s'|o tr'] eqn:Hs.
   - eapply IHn; [|exact Hr]. eapply step_chain_ok; eassumption.
   - inversion Hr; subst. assert (H := step_ch s). rewrite Hs in H. inversion H; subst.
-    destruct Hok as [Hok _].
-    destruct (H1 c eq_refl) as [->|[p [Hp [_ ->]]]].
-    + exists (schain s), (sraised s). split; [reflexivity|exact Hok].
-    + exists (p :: schain s), (N.succ (sraised s)). split; [reflexivity|].
-      simpl. rewrite Hp. split; [lia|exact Hok].
+    destruct (H1 c eq_refl) as [newp [c1 [r' [-> [Hd Hp]]]]].
+    eexists _, r'. split; [reflexivity|]. eapply gen_desc; eassumption.
 Qed.
 
 Close Scope N_scope.
@@ -479,9 +651,8 @@ Proof.
   - inversion H; subst. split; [lia|]. split; [exists fr; auto|]. intros j Hj. lia.
 Qed.
 
-(* every PanicError the machine holds: the chain of the running VM and the
-   chains of the VMs suspended in a callback *)
-Definition all_chains (s : state) : list prec := schain s ++ flat_map vchain (souter s).
+Lemma in_skipn {A} (x : A) n : forall l, In x (skipn n l) -> In x l.
+Proof. induction n; intros l H; [exact H|]. destruct l; [exact H|]. right. apply IHn. exact H. Qed.
 
 (* a recovered flag that appears in a step was set by OpRecover on the head
    of the chain, and the nearest non-deferred frame was a panicked one *)
@@ -498,21 +669,23 @@ Proof.
   assert (Hold : In p' (schain s ++ flat_map vchain (souter s)) ->
                  exists p, In p (schain s ++ flat_map vchain (souter s)) /\ pser p = pser p' /\ precovered p = true)
     by (intros Hi; exists p'; auto).
-  inversion H as [s1 Hc Hr Ho | s1 p Hc Hp Hprec Hr Ho | s1 p ps f down i1 i Hc0 Hc Hr Ho Hm Hf Hfe Hs1 Hs2 Hcalls
-                 | s1 n Hc Hr Ho | s1 sv Hc Hr Hv Ho | s1 sv rest Ho0 Hc0 Hc Hr Ho | o tr Hfin].
-  - left. apply Hold. rewrite Hc, Ho in Hin. exact Hin.
-  - rewrite Hc, Ho in Hin. destruct Hin as [->|Hin].
-    + rewrite Hprec in Hrec. discriminate.
-    + left. apply Hold. exact Hin.
+  inversion H as [s1 newp c1 popped Ho Hc [n Hd] Hp | s1 p ps f down i1 i Hc0 Hc Hr Ho Hm Hf Hfe Hs1 Hs2 Hcalls
+                 | s1 sv Hc Hr Hv Ho | o tr Hfin]; subst.
+  - left. rewrite Hc in Hin. rewrite Ho, flat_map_app.
+    repeat rewrite <- app_assoc in Hin.
+    apply in_app_or in Hin. destruct Hin as [Hin|Hin].
+    + exfalso. destruct Hp as [[-> _]|[p [-> [_ [Hf _]]]]]; [contradiction|].
+      destruct Hin as [<-|[]]. rewrite Hf in Hrec. discriminate.
+    + apply in_app_or in Hin. destruct Hin as [Hin|Hin].
+      * assert (Hk : In (pkey p') (map pkey (skipn n (schain s)))) by (rewrite <- Hd; apply in_map; exact Hin).
+        apply in_map_iff in Hk. destruct Hk as [p [Hpk Hpin]]. exists p.
+        split; [apply in_or_app; left; eapply in_skipn; exact Hpin|].
+        unfold pkey in Hpk. inversion Hpk. split; [reflexivity|]. congruence.
+      * exists p'. split; [apply in_or_app; right; exact Hin|auto].
   - rewrite Hc, Ho in Hin. destruct Hin as [<-|Hin].
     + right. exists f, down, i1, i, ps. repeat split; assumption.
     + left. apply Hold. rewrite Hc0. right. exact Hin.
-  - left. apply Hold. rewrite Hc, Ho in Hin. apply in_app_or in Hin. apply in_or_app.
-    destruct Hin as [Hin|Hin]; [left|right; exact Hin].
-    clear - Hin. revert Hin. generalize (schain s). induction n; intros l Hin; [exact Hin|].
-    destruct l; [exact Hin|]. right. apply IHn. exact Hin.
   - left. apply Hold. rewrite Hc, Ho in Hin. simpl in Hin. rewrite Hv in Hin. exact Hin.
-  - left. apply Hold. rewrite Hc, Ho in Hin. rewrite Ho0, Hc0. simpl. exact Hin.
 Qed.
 
 (* ------------------------------------------------------------------ *)
@@ -530,25 +703,39 @@ Definition panics_with (i : instr) (v : N) : Prop := i = IPanic v \/ i = INat (N
    recovered, and has the debug line of that instruction (when the
    instruction has no debug information, the one of the following
    instruction: the case of a failed type assertion) *)
+(* the new record is the head of the chain, before the records the VM had
+   and, when the panic leaves the VM of a callback that has no call frame,
+   those of the calling VMs (rest) *)
+Lemma end_panic_out_head outer : forall c tr r,
+  (exists s' rest, end_panic_out outer c tr r = Next s' /\ schain s' = c ++ rest) \/
+  (exists rest, end_panic_out outer c tr r = Fin (OPanic (chain_view (c ++ rest))) tr).
+Proof.
+  induction outer as [|sv rest IH]; intros c tr r; simpl.
+  - right. exists []. rewrite app_nil_r. reflexivity.
+  - destruct (vcalls sv).
+    + destruct (IH (c ++ vchain sv) tr r) as [[s' [x [H1 H2]]]|[x H1]].
+      * left. exists s', (vchain sv ++ x). split; [exact H1|]. rewrite H2, <- app_assoc. reflexivity.
+      * right. exists (vchain sv ++ x). rewrite H1, <- app_assoc. reflexivity.
+    + left. eexists _, (vchain sv). split; reflexivity.
+Qed.
+
 Theorem panic_position s f ins v :
   smode s = MExec -> sfn s = Some f -> fetch f (spc s) = Some ins -> panics_with ins v ->
-  (exists s', step s = Next s' /\
-     schain s' = mkprec v false (debug_line f (spc s)) (sraised s) :: schain s) \/
-  (exists tr, step s = Fin (OPanic ((v, false, debug_line f (spc s)) :: chain_view (schain s))) tr) \/
-  (* in the VM of a callback, with no frame left: Run panics with the text of the chain *)
-  (exists tr, souter s <> [] /\ step s = Fin (OCbPanic ((v, false) :: cb_view (schain s))) tr).
+  (exists s' rest, step s = Next s' /\
+     schain s' = mkprec v false false (debug_line f (spc s)) (sraised s) :: schain s ++ rest) \/
+  (exists tr rest, step s = Fin (OPanic ((v, false, debug_line f (spc s)) :: chain_view (schain s ++ rest))) tr).
 Proof.
   intros Hm Hf Hfe Hp. unfold step. rewrite Hm. unfold step_exec. rewrite Hf, Hfe.
   assert (Hr : forall s1, scalls s1 = scalls s -> schain s1 = schain s -> sraised s1 = sraised s -> souter s1 = souter s ->
-     (exists s', raise s1 f (spc s) v = Next s' /\
-        schain s' = mkprec v false (debug_line f (spc s)) (sraised s) :: schain s) \/
-     (exists tr, raise s1 f (spc s) v = Fin (OPanic ((v, false, debug_line f (spc s)) :: chain_view (schain s))) tr) \/
-     (exists tr, souter s <> [] /\ raise s1 f (spc s) v = Fin (OCbPanic ((v, false) :: cb_view (schain s))) tr)).
-  { intros s1 Hc Hch Hra Hou. unfold raise, end_panic. rewrite Hc, Hch, Hra, Hou. destruct (scalls s).
-    - destruct (souter s) eqn:Ho.
-      + right. left. eexists. reflexivity.
-      + right. right. eexists. split; [discriminate|reflexivity].
-    - left. eexists. split; reflexivity. }
+     (exists s' rest, raise s1 f (spc s) v = Next s' /\
+        schain s' = mkprec v false false (debug_line f (spc s)) (sraised s) :: schain s ++ rest) \/
+     (exists tr rest, raise s1 f (spc s) v = Fin (OPanic ((v, false, debug_line f (spc s)) :: chain_view (schain s ++ rest))) tr)).
+  { intros s1 Hc Hch Hra Hou. unfold raise, raise_with. rewrite Hc, Hch, Hra, Hou. destruct (scalls s).
+    - destruct (end_panic_out_head (souter s) (mkprec v false false (debug_line f (spc s)) (sraised s) :: schain s)
+                  (str s1) (N.succ (sraised s))) as [[s' [x [H1 H2]]]|[x H1]].
+      + left. exists s', x. split; [exact H1|exact H2].
+      + right. exists (str s1), x. exact H1.
+    - left. eexists _, []. split; [reflexivity|]. simpl. rewrite app_nil_r. reflexivity. }
   destruct Hp as [->| ->]; apply Hr; reflexivity.
 Qed.
 
